@@ -278,6 +278,32 @@ class Program:
         self.consulted: set[str] = set()
         self.unresolved: list[str] = []
         self.resolved_count = 0
+        self._register_signatures()
+
+    def _register_signatures(self) -> None:
+        """Parameter orders of the package's own functions and constructors, so that keyword and positional spellings
+        of one call have one canonical form (poly.KW_POSITIONS)."""
+        from .poly import KW_POSITIONS
+        seen: dict[str, list[list[str]]] = {}
+        for m in self.modules.values():
+            tail = m.name.split(".")[-1]
+            for f in m.funcs.values():
+                if f.cls is None and "<locals>" not in f.qualname:
+                    ps = [a.arg for a in (*f.node.args.posonlyargs, *f.node.args.args)]
+                    seen.setdefault(f.name, []).append(ps)
+                    seen.setdefault(f"{tail}.{f.name}", []).append(ps)
+            for c in m.classes.values():
+                init = c.methods.get("__init__")
+                if init is not None:
+                    ps = [a.arg for a in (*init.node.args.posonlyargs, *init.node.args.args)][1:]
+                elif c.is_attrs:
+                    ps = [n for n in c.attrs_fields if "init=False" not in norm(c.fields[n].value or ast.Constant(None))]
+                else:
+                    continue
+                seen.setdefault(c.name, []).append(ps)
+        for k, v in seen.items():
+            if len(v) == 1 and k not in KW_POSITIONS:
+                KW_POSITIONS[k] = v[0]
 
     # ---- lookup ---------------------------------------------------------
     def module(self, name: str) -> Module:
